@@ -21,6 +21,7 @@ class _State:
     solve_mode = 'gauss'     # 'gauss' | 'unknowns'
     arange_hook = None
     decade_log = False
+    angle_axioms = False
     calls = {}
 
 
@@ -139,6 +140,20 @@ def _sr_abs(x):
 
 
 def _angle1(x):
+    if isinstance(x, SC) and state.angle_axioms:
+        # angle with its defining relation: x = |x| (cos A + j sin A)
+        A = core.ufn('angle', x.re, x.im)
+        c = core.ctx()
+        memo = c.__dict__.setdefault('memo', {})
+        key = ('angle-ax',) + core._ids(c, A.n)
+        if key not in memo:
+            memo[key] = True
+            cs, sn = core._circle(A)
+            m = abs(x)
+            c.axiom((x.re == m * cs).t)
+            c.axiom((x.im == m * sn).t)
+            c.axiom(z3.And(A.n > core.RV(-3.1415926535897936), A.n <= core.RV(3.1415926535897936)))
+        return A
     if isinstance(x, SC):
         return core.ufn('angle', x.re, x.im)
     if isinstance(x, SR):
